@@ -267,6 +267,13 @@ func wlCellEvents(id int, sc Scenario, seed int64, pre *spg.WLRecipe, preWL *spg
 		}
 		cell.Uncap = uncap
 		cell.Size = int(wl.Size())
+		if pre == nil && w.NoList == 0 {
+			// the caller recycles the slice it passed in: every leaf below and the re-read at the end must not notice
+			for i := range input {
+				input[i] = "RECYCLED"
+			}
+			inputCopy = append([]string{}, input...)
+		}
 	}
 	if sc.Prefault > 0 && wl != nil && pre == nil {
 		// an earlier call in this process, on a capitalising recipe over the same list, whose source failed half-way
